@@ -33,6 +33,14 @@ def run(chk, path):
         return 0
     if "op" not in c:
         c["op"] = "analyze" if "positions" in c or ("script" in c and "vars" not in c) else "exec"
+    if c["op"] == "concurrent":             # C11: goroutines on one parsed script, with the race detector on
+        import os
+        racebin = os.path.join(runner.BUILD, "verifharness-race-replay")
+        runner.build_harness(race=True, out=racebin)
+        out = runner.run_go([c], binary=racebin, race=True)[0]
+        os.remove(racebin)
+        print("go (-race build):", json.dumps(out)[:3000])
+        return 0
     out = runner.run_go([c])[0]
     print("go:", json.dumps(out.get("go", out))[:3000])
     if c["op"] == "exec" and "ast" in out:
